@@ -1471,6 +1471,7 @@ class Interp:
             raise Unsupported(f'ambiguous impls for <{ty_str(self_ty)} as {ty_str(trait)}>::{method}: {[m[0] for m in matches][:4]}')
         if matches:
             info, b = matches[0]
+            self.infer_item_params(info, b)
             if method in info.methods:
                 name = self.pick_dup(info, method, b, head, targs)
                 b['Self'] = self_ty
@@ -1514,6 +1515,28 @@ class Interp:
             if prov and any(last_seg(i.trait or '') == tname and unify(i.self_ty, head, set(i.gens), {}) for i in self.p.impls):
                 return prov, self.bind_provided(prov, self_ty, targs, gargs, ctx)
         return None
+
+    def infer_item_params(self, info, b):
+        """impl<T, U> .. where T: IntoIterator<Item = U>: bind U from the item type of the std container bound to T"""
+        missing = [g for g in info.gens if g not in b]
+        if not missing:
+            return
+        raw, lines = self.p.src.read(info.src)
+        text = ' '.join(lines[info.span[1] - 1:info.span[1] + 12])
+        for g in missing:
+            m = re.search(r'\b(\w+)\s*:\s*(?:[\w:]*::)?IntoIterator<Item\s*=\s*' + re.escape(g) + r'\s*>', text)
+            if not m or m.group(1) not in b:
+                continue
+            t = b[m.group(1)]
+            byref = t[0] == 'ref'
+            inner = strip_refs(t)
+            item = None
+            if inner[0] == 'path' and last_seg(inner[1]) in ('Option', 'Vec', 'BTreeSet', 'HashSet', 'VecDeque') and inner[2]:
+                item = inner[2][0]
+            elif inner[0] in ('slice', 'array'):
+                item = inner[1]
+            if item is not None:
+                b[g] = ('ref', None, item) if byref else item
 
     def normalize_proj(self, t):
         """<X as Trait>::Assoc  ->  the type the impl (or the harness table `assoc_types`) assigns"""
